@@ -234,3 +234,20 @@ def show(n) -> str:
         else:
             parts.append(f"{name}=" + (show(ns[0]) if ns else "None"))
     return f"{type(n).__name__}({', '.join(parts)})"
+
+
+# ---- classes whose child fields the legacy library recognises only at run time (not generated by LGen, outside the
+#      Lean model; used by the directed, oracle-only scenario of C20)
+import typing as _typing
+
+
+@dataclass
+class LSeq(LExpr):
+    body: _typing.Sequence[LExpr] = ()
+    v: int = 0
+
+
+@dataclass
+class LAnyKid(LExpr):
+    x: _typing.Any = None
+    v: int = 0
